@@ -430,9 +430,202 @@ func c02RawBatch(cfg string, env *fw.Env, unit string, res *fw.Result) {
 	}
 }
 
+// recordCont continues on the files already in dir (a crash state): open (recovery), prog, everything recorded.
+func recordCont(dir string, c EngCfg, model map[string][]byte, prog []EngOp, startTime int64) *crashRec {
+	rec := &crashRec{Initial: newMemFS()}
+	rec.Initial.loadDir(dir)
+	vos.StartRecording(dir)
+	s := vsched.Run(vsched.Config{Bound: 0, NoEnv: true, MaxSteps: 3_000_000, StartTime: startTime}, func() {
+		e, err := engine.NewEngineFacade(dir)
+		if err != nil {
+			rec.Errs = append(rec.Errs, "open: "+err.Error())
+			return
+		}
+		r := &EngRun{Dir: dir, Cfg: c, Eng: e, Model: cloneModel(model)}
+		rec.Models = append(rec.Models, cloneModel(r.Model))
+		for k, o := range prog {
+			vos.Mark(fmt.Sprintf("issue:%d", k+1))
+			err := r.Apply(o)
+			if errors.Is(err, errReopen) {
+				rec.Errs = append(rec.Errs, err.Error())
+				return
+			}
+			vos.Mark(fmt.Sprintf("ack:%d", k+1))
+			rec.Models = append(rec.Models, cloneModel(r.Model))
+		}
+		rec.Errs = append(rec.Errs, r.Errs...)
+		rec.Log = vos.StopRecording()
+		r.Close()
+	})
+	if rec.Log == nil {
+		rec.Log = vos.StopRecording()
+	}
+	rec.Out, rec.Detail = s.Out, s.Detail
+	rec.EndTime = s.Now
+	return rec
+}
+
+func crashCases(log []vos.Op, cut int) []crashCase {
+	var cases []crashCase
+	if cut == len(log) || log[cut].Kind != vos.OpMark && log[cut].Kind != vos.OpSync {
+		cases = append(cases, crashCase{cut, -1})
+	}
+	if cut < len(log) && log[cut].Kind == vos.OpWrite {
+		for _, t := range tornCuts(log[cut]) {
+			cases = append(cases, crashCase{cut, t})
+		}
+	}
+	return cases
+}
+
+// c02DoubleCrash: repeated crash/recover cycles. The process dies inside the last write of a short program (every
+// cut and torn length), restarts, and dies again inside the recovery or inside the first write after it (every cut
+// and torn length again); the state after the second recovery must still be a prefix that keeps what the first
+// recovery showed.
+func c02DoubleCrash(cfg string, env *fw.Env, unit string, res *fw.Result) {
+	base := fw.Scratch("c02d")
+	defer os.RemoveAll(base)
+	c := engCfgs[cfg]
+	keys := []string{"a", "b", "c"}
+	sync := c.Sync == config.SyncImmediate
+	progs := [][]EngOp{
+		{{Kind: "put", Key: "a"}, {Kind: "put", Key: "b"}},
+		{{Kind: "put", Key: "a"}, {Kind: "txc", Sub: []EngOp{{Kind: "put", Key: "b"}, {Kind: "del", Key: "a"}}}},
+	}
+	next := []EngOp{{Kind: "put", Key: "c"}}
+	dst := filepath.Join(base, "run")
+	for _, prog := range progs {
+		r := recordProg(dst, c, prog)
+		res.Transitions++
+		res.Traces++
+		viol := func(class, detail string, w map[string]any) {
+			w["kind"], w["cfg"], w["prog"] = "double-crash", cfg, prog
+			res.Violate(fw.FP("C02", cfg, "double-crash", class, progString(prog)), fmt.Sprintf("[%s] %s: %s", cfg, progString(prog), detail), unit, w)
+		}
+		if r.Out != vsched.OK || len(r.Models) != len(prog)+1 {
+			viol("run-failed", "program did not complete: "+r.Detail+strings.Join(r.Errs, "; "), map[string]any{})
+			continue
+		}
+		n := len(prog)
+		start := 0
+		for i, op := range r.Log {
+			if op.Kind == vos.OpMark && op.Path == fmt.Sprintf("issue:%d", n) {
+				start = i
+			}
+		}
+		fs := r.Initial.clone()
+		for i := 0; i < start; i++ {
+			fs.apply(r.Log[i], -1)
+		}
+		bad := false
+		for cut := start; cut <= len(r.Log) && !bad; cut++ {
+			for _, cc := range crashCases(r.Log, cut) {
+				if bad || env.Expired() {
+					break
+				}
+				st := fs
+				if cc.Torn >= 0 {
+					st = fs.clone()
+					st.apply(r.Log[cut], cc.Torn)
+				}
+				fw.Progress(fmt.Sprintf("c02 double-crash %s %s first crash %d/%d", cfg, progString(prog), cc.Cut, cc.Torn))
+				if err := st.dump(dst); err != nil {
+					res.HarnessErr = "dump: " + err.Error()
+					return
+				}
+				lo, hi := n-1, n
+				if cut == len(r.Log) {
+					lo = n
+				}
+				if !sync {
+					lo = 0
+				}
+				problem, j := recoverAndCheck(dst, keys, r.Models, lo, hi, false, r.EndTime)
+				res.Evaluations++
+				if problem != "" {
+					break // the single-crash enumeration reports this
+				}
+				if err := st.dump(dst); err != nil {
+					res.HarnessErr = "dump: " + err.Error()
+					return
+				}
+				r2 := recordCont(dst, c, r.Models[j], next, r.EndTime+3600e9)
+				res.Transitions++
+				where1 := fmt.Sprintf("first crash at log operation %d", cc.Cut)
+				if cc.Torn >= 0 {
+					where1 = fmt.Sprintf("first crash %d of %d bytes into %s", cc.Torn, len(r.Log[cut].Data), normPath(describeOp(r.Log[cut])))
+				}
+				if r2.Out != vsched.OK || len(r2.Models) != 2 {
+					viol("restart-failed", where1+": restart and one write did not complete: "+r2.Detail+strings.Join(r2.Errs, "; "), map[string]any{"first": cc})
+					bad = true
+					break
+				}
+				issue := 0
+				for i, op := range r2.Log {
+					if op.Kind == vos.OpMark && op.Path == "issue:1" {
+						issue = i
+					}
+				}
+				fs2 := r2.Initial.clone()
+				for cut2 := 0; cut2 <= len(r2.Log) && !bad; cut2++ {
+					for _, c2 := range crashCases(r2.Log, cut2) {
+						st2 := fs2
+						if c2.Torn >= 0 {
+							st2 = fs2.clone()
+							st2.apply(r2.Log[cut2], c2.Torn)
+						}
+						fw.Alive()
+						if err := st2.dump(dst); err != nil {
+							res.HarnessErr = "dump: " + err.Error()
+							return
+						}
+						lo2, hi2 := 0, 1
+						if cut2 <= issue {
+							hi2 = 0
+						}
+						if cut2 == len(r2.Log) && sync {
+							lo2 = 1
+						}
+						res.Evaluations++
+						res.Nontrivial++
+						p2, _ := recoverAndCheck(dst, keys, r2.Models, lo2, hi2, true, r2.EndTime)
+						if p2 != "" {
+							where2 := fmt.Sprintf("second crash at log operation %d of the restarted process", c2.Cut)
+							if cut2 < len(r2.Log) {
+								where2 = fmt.Sprintf("second crash before %s", normPath(describeOp(r2.Log[cut2])))
+								if c2.Torn >= 0 {
+									where2 = fmt.Sprintf("second crash %d of %d bytes into %s", c2.Torn, len(r2.Log[cut2].Data), normPath(describeOp(r2.Log[cut2])))
+								}
+							}
+							viol(firstLine(p2), where1+"; restart showed "+strModel(r.Models[j])+"; "+where2+": "+p2, map[string]any{"first": cc, "second": c2})
+							bad = true
+							break
+						}
+					}
+					if cut2 < len(r2.Log) {
+						fs2.apply(r2.Log[cut2], -1)
+					}
+				}
+			}
+			if cut < len(r.Log) {
+				fs.apply(r.Log[cut], -1)
+			}
+		}
+		if env.Expired() {
+			res.Exhaustive = false
+			res.Caps = append(res.Caps, unit+": deadline")
+			return
+		}
+	}
+}
+
 func c02Unit(unit string, env *fw.Env) *fw.Result {
 	res := fw.NewResult()
 	parts := strings.Split(unit, "/")
+	if parts[0] == "double" {
+		c02DoubleCrash(parts[1], env, unit, res)
+		return res
+	}
 	if parts[0] == "rawbatch" {
 		c02RawBatch(parts[1], env, unit, res)
 		return res
@@ -454,7 +647,7 @@ func init() {
 	fw.Register(&fw.Check{
 		ID:    "C02",
 		Level: "fault_enumeration",
-		Rule: "explicit-state search over engine programs {put a, put b, del a, 2-key commit, flush, bg, reopen, compact} up to the depth per configuration (sync immediate/none/batch, memtable 32 MiB / 1 B incl. max-memtables 2); every file-system call of the run is recorded; for each program every crash state inside its last operation is materialised (all prefixes of the call log, plus torn variants of every write: all lengths for writes <=512 B, else record boundaries +-8, page multiples, first/last 64) and opened with the real engine. Oracle: the recovered state (gets and scan) equals the model after j operations for an admissible j (acked <= j <= issued with synchronous logging, 0 <= j <= issued otherwise, a transaction counts as one operation); then 2 writes, clean close, reopen: state and sequence stamps continue correctly. Raw-batch sub-run: a batch with repeated keys (put/put, put/delete, delete/put under one sequence number) through the engine's batch call, followed by <=1 (2 thorough) steps of {put, flush, bg, reopen}, memtable 1 B / 40 B. Shape sub-run (sync immediate / none / batch): a 90 KB three-entry commit or a 70 KB put issued behind one or two small writes (or behind another such commit), followed by one of {put, delete, reopen, flush}, same crash enumeration inside the large write and inside the step after it. Non-trivial = crash cuts strictly inside an operation",
+		Rule: "explicit-state search over engine programs {put a, put b, del a, 2-key commit, flush, bg, reopen, compact} up to the depth per configuration (sync immediate/none/batch, memtable 32 MiB / 1 B incl. max-memtables 2); every file-system call of the run is recorded; for each program every crash state inside its last operation is materialised (all prefixes of the call log, plus torn variants of every write: all lengths for writes <=512 B, else record boundaries +-8, page multiples, first/last 64) and opened with the real engine. Oracle: the recovered state (gets and scan) equals the model after j operations for an admissible j (acked <= j <= issued with synchronous logging, 0 <= j <= issued otherwise, a transaction counts as one operation); then 2 writes, clean close, reopen: state and sequence stamps continue correctly. Raw-batch sub-run: a batch with repeated keys (put/put, put/delete, delete/put under one sequence number) through the engine's batch call, followed by <=1 (2 thorough) steps of {put, flush, bg, reopen}, memtable 1 B / 40 B. Shape sub-run (sync immediate / none / batch): a 90 KB three-entry commit or a 70 KB put issued behind one or two small writes (or behind another such commit), followed by one of {put, delete, reopen, flush}, same crash enumeration inside the large write and inside the step after it. Double-crash sub-run (sync immediate / none, memtable 32 MiB / 1 B): after {put a, put b} or {put a, commit(put b, del a)} the process dies at every cut / torn length of the last operation, restarts on that state, and dies again at every cut / torn length of the recovery and of the first write after it; the second recovery must show the state the first one showed, with or without the new write, and continue correctly. Non-trivial = crash cuts strictly inside an operation",
 		Assumptions: []string{"process-death crash model: completed writes survive, fsync is irrelevant, power loss is not modelled", "single client; background flush runs at explicit bg steps"},
 		Units: func(tier string) []string {
 			var us []string
@@ -472,6 +665,9 @@ func init() {
 			}
 			for _, cfg := range []string{"tiny", "two"} {
 				us = append(us, "rawbatch/"+cfg)
+			}
+			for _, cfg := range []string{"big", "bigN", "tiny"} {
+				us = append(us, "double/"+cfg)
 			}
 			return us
 		},
